@@ -38,12 +38,12 @@ func runC04(t *testing.T) {
 	c.Assume("task work is idempotent: an effect of a task that was running at the crash may or may not be present (both are seeded)")
 	c.Floor("crash_points", 200)
 	opts := genOpts{maxTasks: kit.Scale(10, 16), waits: true, atTimes: true, failures: true}
-	n := kit.Scale(45, 260)
+	n := kit.Scale(120, 260)
 	only := kit.OnlyCase()
 	// free-running cases with handlers that lock/modify/unlock the state
 	// mid-work over a slow backend: checkpoints must be written in lock order,
 	// otherwise the state file can go back in time and a restart redoes work
-	nFree := kit.Scale(40, 200)
+	nFree := kit.Scale(80, 200)
 	for i := 0; i < nFree; i++ {
 		if only >= 0 {
 			break
